@@ -67,7 +67,9 @@ def sortRows (l : List (List String)) : List String := sortStrings (l.map (fun r
 
 def runC18 (fields : List String) (obs : String) : String × String × String :=
   let bad := ("bad-case", "bad-case", "-")
-  match fields with
+  -- a trailing `form=…` field says how the tables and the index are written (variables, mutable variables,
+  -- in place): the result does not depend on it
+  match fields.filter (fun f => !f.startsWith "form=") with
   | ["join", m, _, l, r] =>
     (match modeOf m, parseTableCase l, parseTableCase r with
      | some mode, some A, some B =>
